@@ -7,7 +7,8 @@
 From Coq Require Import ZArith List Bool Arith String Lia.
 From Coq Require Import Permutation.
 From PyxelV Require Import Model.ParamSpace Proofs.ParamSpace Proofs.ParamSpaceNames Proofs.ParamSpaceLabels
-                           Proofs.ParamSpaceObserve Proofs.ParamSpaceDask Proofs.ParamSpaceHist.
+                           Proofs.ParamSpaceObserve Proofs.ParamSpaceDask Proofs.ParamSpaceHist
+                           Proofs.ParamSpaceRank.
 From PyxelGen Require Import Gen_C05.
 Import ListNotations.
 Local Open Scope string_scope.
@@ -41,6 +42,18 @@ Theorem C05_product_is_spec : forall ps,
   NoDup (map p_key (enabled ps)) -> product_runs ps = spec_product (enabled ps).
 Proof. exact product_runs_spec. Qed.
 Print Assumptions C05_product_is_spec.
+
+(* Run number and index tuple determine each other: with distinct keys, every in-bounds index tuple
+   is carried by exactly one run of the CODED run list, and that run is number `rank dims ix`
+   (mixed radix, last parameter fastest).  Any number of parameters, any list lengths. *)
+Theorem C05_product_index_bijection : forall ps ix,
+  NoDup (map p_key (enabled ps)) ->
+  Forall2 lt ix (map plen (enabled ps)) ->
+  exists r, In r (product_runs ps) /\ r_index r = ix /\
+            r_run_index r = rank (map plen (enabled ps)) ix /\
+            forall r', In r' (product_runs ps) -> r_index r' = ix -> r_run_index r' = r_run_index r.
+Proof. exact product_runs_index_unique. Qed.
+Print Assumptions C05_product_index_bijection.
 
 (* Sequential mode: the runs are, parameter after parameter in declaration order, the configured
    values of all swept keys with only the current parameter's key replaced by each of its values. *)
